@@ -17,6 +17,7 @@ EXPLANATION = ("Necessary structural clauses of C01 decided from MIR/HIR: cluste
                "both sides; the entropy sampling rewinds the input. Byte equality for any input is not decided."
                " (R11-R13) reader blob extraction [offsets[i], offsets[i+1]), content id -> (cluster, blob) resolution keyed by the values read for that content, creator addresses = position of the info pushed, both vectors of a cluster grow on every successful add_content; (R14) the deduplicating adder keys on the Blake3 of the whole content (= C16-R4)."
                ' Added later: (R15) the table of content packs has max_id + 1 slots computed in usize; (R16) the cluster index is bounded by 2^20 - 1 where a cluster is made; (R17) a content is rewound before it is queued; (R18) every table is one checked block (no ser_callable in a loop); (R19) positions are asked of the buffering stream, never of the stream under a BufWriter; (R20) the count returned by a direct Write::write decides something (= C09-R7); (R21) the background decoder advances by the bytes each read returned (= C07-R1/R2). (R22) the plain / to-be-decoded reader of a cluster is chosen by the stored compression tag.')
+EXPLANATION += ' Batch 11: (R23) the table of cluster addresses only grows (= C08-R1); (R13) ClusterCreator::is_empty counts contents, not bytes.'
 ASSUMPTIONS = ["compression libraries round-trip (lz4, xz2, zstd)", "std::io semantics", "rustc MIR/HIR construction and trait resolution"]
 
 
@@ -581,6 +582,24 @@ def r13_creator_addresses(cx):
         # and the data written are computed from one or the other): no successful path skips a push
         ok = ok and gb.must_pass_before_return({pd[0][0]}) and gb.must_pass_before_return({po[0][0]})
     cx.ob("R13", "R13/ClusterCreator.add_content", ok, g, "the blob index is offsets.len() before the push; data and cumulative end offset are pushed for that same content")
+    # a cluster that holds a content -- even a zero-length one -- has an index and content infos pointing at it: it must be
+    # written. `is_empty` (which decides whether the clusters still open at finalize are written) answers from the number
+    # of contents, never from their size
+    e = F.one(impl_self="ClusterCreator", item="is_empty", closure=False)
+    eb = F.deep_body(e, only=r"cluster::ClusterCreator::")
+    cnt = eb.calls(r"Vec::<.*>::(is_empty|len)$", r"\[.*\]>::(is_empty|len)$")
+    sized = [callee_str(t).split("::<")[0] for i, t in eb.calls(r"Size|::last$|::sum|InputReader>::size$|::iter$") if not eb.is_cleanup(i)]
+    from_count = False
+    for i in range(eb.n):
+        for st in eb.blocks[i]["s"]:
+            if st["k"] == "assign" and st["lhs"]["l"] == 0:
+                from_count = from_count or any(x[0] == "call" and x[1] in {c for c, _ in cnt} for x in eb.origins(st["rv"]["op"] if st["rv"]["k"] == "use" else 0))
+        t = eb.term(i)
+        if t["k"] == "call" and t["dest"]["l"] == 0 and i in {c for c, _ in cnt}:
+            from_count = True
+    fields = {x[1] for c, t in cnt for x in eb.origins(t["args"][0]) if x[0] == "field"}
+    cx.ob("R13", "R13/ClusterCreator.is_empty/counts-contents", bool(cnt) and from_count and not sized and bool(fields & {"data", "offsets"}), e,
+          "is_empty answers from the number of contents (len / is_empty of data or offsets), not from their size (size-based calls: %s)" % (sized or "none"))
     h = F.one(impl_self="ContentPackCreator", item="finalize", closure=False)
     hb = F.body(h)
     cls = [c for c in F.closures_of(h) if "blocks" in c]
@@ -804,7 +823,15 @@ WITH_COMPRESSION = ("lib-all3", "lib-default", "all-bins", "lib-release")
 r5_compression_tables.only_configs = WITH_COMPRESSION
 r8_sampling_rewinds.only_configs = WITH_COMPRESSION
 
+def r23_address_table_only_grows(cx):
+    """'reads back byte-identical': the address of a written cluster stays in the table (= C08-R1 under C01: the table of
+    cluster addresses is indexed by the id the task carries and is only ever grown)"""
+    import c08
+    reuse(cx, c08.r1_address_table, "R1", "R23")
+
+
 RULES = [
+    ("R23", r23_address_table_only_grows, 6),
     ("R1", r1_cluster_tail, 8),
     ("R2", r2_packing, 6),
     ("R3", r3_no_such_content, 3),
